@@ -845,4 +845,74 @@ theorem argsOK_flatC (cs : Cases) : ∀ t ∈ flatC cs, t.argsOK = true := by
     · exact argsOK_flatC cs t ht
 end
 
+/-! ## END lines: `runL` reads a prefix of the statements; liveness of a point -/
+
+theorem runL_eq_run (m : M) (ls : List Line) : runL cfg m ls = run cfg m (readL cfg m ls) := by
+  induction ls generalizing m with
+  | nil => rfl
+  | cons l ls ih =>
+    cases l with
+    | stmt s => simp only [runL, readL, run_cons]; exact ih _
+    | endl =>
+      simp only [runL, readL]
+      split
+      · rfl
+      · exact ih _
+
+theorem runL_stmts (m : M) (ss : List Stmt) (r : List Line) :
+    runL cfg m (ss.map Line.stmt ++ r) = runL cfg (run cfg m ss) r := by
+  induction ss generalizing m with
+  | nil => rfl
+  | cons s ss ih => simp only [List.map_cons, List.cons_append, runL, run_cons]; exact ih _
+
+theorem readL_stmts (m : M) (ss : List Stmt) (r : List Line) :
+    readL cfg m (ss.map Line.stmt ++ r) = ss ++ readL cfg (run cfg m ss) r := by
+  induction ss generalizing m with
+  | nil => rfl
+  | cons s ss ih => simp only [List.map_cons, List.cons_append, readL, run_cons, ih]
+
+theorem readL_prefix (m : M) (ls : List Line) : readL cfg m ls <+: stmtsOf ls := by
+  induction ls generalizing m with
+  | nil => exact List.prefix_refl _
+  | cons l ls ih =>
+    cases l with
+    | stmt s => simp only [readL, stmtsOf]; exact (List.cons_prefix_cons).2 ⟨rfl, ih _⟩
+    | endl =>
+      simp only [readL, stmtsOf]
+      split
+      · exact List.nil_prefix
+      · exact ih _
+
+theorem step_closer_out (m : M) (o : Open) : (step cfg m (closer o)).out = m.out := by
+  cases o <;> simp only [closer, step, codeENDIF, codeENDCASE, M.err] <;> (repeat' split) <;> rfl
+
+theorem run_closers_out (m : M) (st : List Open) : (run cfg m (closers st)).out = m.out := by
+  induction st generalizing m with
+  | nil => rfl
+  | cons o st ih =>
+    show (run cfg m (closer o :: closers st)).out = m.out
+    rw [run_cons, ih, step_closer_out]
+
+/-- the machine state at a point of a skeleton's text agrees with the documented liveness of the point -/
+theorem live_at (pre : List Stmt) (st : List Open) (b0 b1 : Block) (hw : wnRun [] pre = some st)
+    (h0 : flatB b0 = pre ++ closers st) (h1 : flatB b1 = pre ++ .leaf probeLeaf :: closers st)
+    (hf0 : faithfulB cfg b0 = true) (hf1 : faithfulB cfg b1 = true) :
+    (run cfg init pre).ifAsm = decide ((codeOf (selB b1)).length = (codeOf (selB b0)).length + 1) := by
+  have hl := run_lock (cfg := cfg) pre init [] ⟨rfl, rfl⟩
+  rw [hw] at hl
+  have hc : (run cfg init pre).crashed = false := hl.1.1
+  have e0 := (select_out (cfg := cfg) b0 hf0).2.1
+  have e1 := (select_out (cfg := cfg) b1 hf1).2.1
+  rw [h0, run_append, run_closers_out] at e0
+  rw [h1, run_append, run_cons, run_closers_out, step_leaf _ hc] at e1
+  have c0 : codeOf (selB b0) = (run cfg init pre).codes := by rw [← evs_code, ← e0]; rfl
+  cases hi : (run cfg init pre).ifAsm
+  · rw [hi] at e1
+    have c1 : codeOf (selB b1) = (run cfg init pre).codes := by rw [← evs_code, ← e1]; rfl
+    rw [c0, c1]; simp
+  · rw [hi] at e1
+    have c1 : codeOf (selB b1) = (run cfg init pre).codes ++ [0] := by
+      rw [← evs_code, ← e1]; simp [M.codes, leafEvs, probeLeaf, Leaf.isMacro, Leaf.intLabel, Leaf.labelPresent, Leaf.exec, Ev.code?]
+    rw [c0, c1]; simp
+
 end AslModel.Cond
